@@ -81,6 +81,10 @@ class ItemAttributeList(List[T]):
         self._item_dict[item_name] = item
 
     def insert(self, index: SupportsIndex, obj: T) -> None:
+        # let list.insert() reject unsuitable indices before the item
+        # gets registered
+        [].insert(index, obj)
+
         self._add_attribute_item(obj)
 
         list.insert(self, index, obj)
